@@ -36,6 +36,12 @@ type Case struct {
 	Unordered bool          `json:"unordered"`
 	// environments that differ in what the type name "num" means: the same tree is run in each of them
 	Variants []string `json:"variants"`
+	// a copy of an environment is independent: Src (= B) in the base after S0, with and without A having run in a copy of the base
+	Pair *struct {
+		S0  string `json:"s0"`
+		A   string `json:"a"`
+		How string `json:"how"` // Copy | DeepCopy
+	} `json:"pair"`
 	// outcomes under recorded deviations of the code from the intended design (KNOWN_FINDINGS.json)
 	Alt []struct {
 		Key string     `json:"key"`
@@ -167,6 +173,34 @@ func runVariants(c Case, src string, stmt ast.Stmt, nconc int, sum *Summary, add
 	sum.Compared++
 }
 
+// runPair: B in the base alone versus B in the base after A ran in a copy of it (both directions of visibility are B's business:
+// B reads what A wrote).  The copy is made by the host, as an embedder would.
+func runPair(c Case, src string, sum *Summary, add func(Mismatch)) {
+	run := func(withA bool) vmrun.Obs {
+		var base *env.Env
+		o, _ := vmrun.RunSrc(func(e *env.Env) { base = e }, c.Pair.S0)
+		if o.Cls != "ok" && c.Pair.S0 != "" {
+			return o
+		}
+		if withA {
+			var cp *env.Env
+			if c.Pair.How == "Copy" {
+				cp = base.Copy()
+			} else {
+				cp = base.DeepCopy()
+			}
+			vmrun.RunIn(cp, c.Pair.A)
+		}
+		return vmrun.RunIn(base, src)
+	}
+	alone, after := run(false), run(true)
+	sum.Runs += 4
+	sum.Compared++
+	if !vmrun.SameObs(alone, after, false) {
+		add(Mismatch{ID: c.ID, Kind: "isolation", What: fmt.Sprintf("a run in a %s of the environment (%q) changed what the environment itself yields afterwards", c.Pair.How, c.Pair.A), Src: c.Pair.S0 + " ;; " + src, Exp: alone, Got: after})
+	}
+}
+
 func main() {
 	if len(os.Args) < 4 || os.Args[1] != "run" {
 		fmt.Fprintln(os.Stderr, "usage: vmharness run <cases.ndjson> <result.json> [nconc]")
@@ -234,6 +268,10 @@ func main() {
 		}
 		if len(c.Variants) > 0 {
 			runVariants(c, src, stmt, nconc, &sum, add)
+			continue
+		}
+		if c.Pair != nil {
+			runPair(c, src, &sum, add)
 			continue
 		}
 		d0 := vmrun.Digest(stmt)
